@@ -78,7 +78,7 @@ def group_keys(level, g, prefix):
     return d
 
 
-def pipeline_dict(G):
+def pipeline_dict(G, nest=False):
     marker = {"id": "mark", "type": "field_name_suffix", "suffix": "_M"}
     marker.update(group_keys("rule", G["rule"], "rule"))
     marker.update(group_keys("item", G["item"], "detection_item"))
@@ -93,9 +93,7 @@ def pipeline_dict(G):
             {"id": "pre", "type": "replace_string", "regex": "^kv$", "replacement": "kw",
              "field_name_conditions": [{"type": "include_fields", "fields": ["fieldK"]}]},
             {"id": "ren", "type": "field_name_mapping", "mapping": {"fieldA": "fieldB", "fieldK": ["fieldK1", "fieldK2"]}},
-            rulemark,
-            marker,
-        ],
+        ] + ([{"id": "wrap", "type": "nest", "items": [rulemark, marker]}] if nest else [rulemark, marker]),
     }
 
 
@@ -134,7 +132,7 @@ def drive_case(case):
         return {"id": case["id"], "G": case["G"], "pp": case["pp"], "ret": ret}
 
     def go():
-        p = ProcessingPipeline.from_dict(pipeline_dict(case["G"]))
+        p = ProcessingPipeline.from_dict(pipeline_dict(case["G"], bool(case.get("nest"))))
         r = SigmaRule.from_dict(copy.deepcopy(RULE))
         p.apply(r)
         # (a one-to-many renaming replaces an item by a nested detection holding one item per new name)
@@ -149,7 +147,7 @@ def drive_case(case):
     ret = outcome(go)
     if not ret["ok"]:
         ret["out"] = {"items": [], "fields": [], "rule": False, "refs": []}
-    return {"id": case["id"], "G": case["G"], "pp": "-", "ret": ret}
+    return {"id": case["id"], "G": case["G"], "pp": "-", "nest": bool(case.get("nest")), "ret": ret}
 
 
 def run(tier: str, seed: int) -> int:
@@ -158,7 +156,7 @@ def run(tier: str, seed: int) -> int:
     cases = chk.generate("Gen_C13")
     obs = drive("harness.props.c13", "drive_case", cases)
     verdicts = chk.judge("Judge_C13", obs)
-    by_id = {o["id"]: {"marker_item": pipeline_dict(o["G"])["transformations"][4], "observed": o["ret"]["out"] if o["ret"]["ok"] else o["ret"]["exc"] + ": " + uncps(o["ret"]["msg"])} for o in obs}
+    by_id = {o["id"]: {"marker_item": dict(pipeline_dict(o["G"])["transformations"][4], inside_nest=bool(o.get("nest"))), "observed": o["ret"]["out"] if o["ret"]["ok"] else o["ret"]["exc"] + ": " + uncps(o["ret"]["msg"])} for o in obs}
     chk.absorb(verdicts, by_id, {c["id"]: c for c in cases})
     nontrivial = sum(1 for c in cases if sum(len(c["G"][k]["conds"]) for k in ("rule", "item", "field")) >= 1)
     samples = [by_id[o["id"]] for o in obs[:: max(1, len(obs) // 4)]][:4]
@@ -171,7 +169,7 @@ def run(tier: str, seed: int) -> int:
         "under every linking/negation setting, plus a seeded product of 12 x 12 x 10 groups; a marker transformation behind "
         "a state-setting and a field-renaming item shows where it acted (6 detection items - two of them the replacements of a one-to-many renaming -, a field reference in a value, 2 field-list entries, the rule); "
         "plus a marker post-processing item behind a first post-processing item of each kind (embed, simple_template, template, replace, none) "
-        "gated on that item's application; non-trivial = at least one condition",
+        "gated on that item's application, plus the single-group gates once more with the marker items inside a nested pipeline; non-trivial = at least one condition",
         samples=samples,
         traces=len(obs),
         exhaustive=False,
